@@ -251,6 +251,13 @@ def run(ctx):
             raise tlc.TLCMachineryError(f"{name}: twin-run specification violates {res.violated} {res.errors}\n" + "\n".join(res.trace)[-2500:])
     # R: real save / load at every stop point
     tasks = sp.gen_tasks(ctx, rng, 20 if quick else 80, 6 if quick else 20, make_groups, 6, (), ("mom", "b1", "wd", "lr"))
+    # always present: eigenvalue-corrected configurations whose refresh period is > 1 (state that is only rebuilt at refreshes would be
+    # stale after a resume in between), with bias correction and beta2 < 1
+    def soap_between(r):
+        g = family.draw_group(r, r.choice(["m2x2", "v2x3", "rect"]), kind="soap", freq=r.choice([2, 3]))
+        g.update(bias_corr=True, beta2=r.choice([0.9, 0.5, 0.99]))
+        return [g]
+    tasks += sp.gen_tasks(ctx, rng, 3 if quick else 12, 4 if quick else 10, soap_between, 7, (), ("lr",), per_beh_redraw=False)
     rtasks = []
     for i, (d, beh, _) in enumerate(tasks):
         if i % 4 == 1:
